@@ -39,7 +39,7 @@ TRUSTED = [
     "C11: OSError(errno) raised by the injected os.readlink/os.listdir is what the kernel call would raise for that errno (Python's errno -> exception-class mapping is exercised for real); a Python without IPv6 is emulated by socket.inet_ntop raising ValueError for AF_INET6 and socket.has_ipv6 = False",
 ]
 MANIFEST = {
-    "level_text": "Machine-checked Lean 4 proofs over a transcription of _pslinux.NetConnections (decode_address, process_inet, process_unix, get_proc_inodes, get_all_inodes, retrieve), wrap_exceptions around Process.net_connections and the front-end kind check: address round-trip for EVERY IPv4/IPv6 address and port on both endiannesses against the kernel's %08X-per-host-order-word rendering (C11_addr_roundtrip_v4/v6, C11_port_zero_empty), the 11-state status map and both kind tables by `decide` over the translator-generated tables (C11_status_map, C11_kind_table, C11_kind_files), unknown kind -> ValueError, exact parsing of every rendered tcp/udp/unix line incl. UNIX names with blanks and carriage returns (C11_inet_line, C11_unix_line, C11_unix_name_with_cr), owner lookup for every descriptor table (C11_owner), the resulting rows/per-process statements (C11_rows_exact, C11_per_process_only_own) and their NUMBER incl. any number of sockets sharing inode 0 (C11_rows_count, C11_rows_count_inode0); with every errno outcome of os.listdir/os.readlink explicit: a descriptor or process that cannot be inspected (ENOENT, ESRCH, EINVAL, ENAMETOOLONG, EACCES, EPERM) contributes no holder and never fails the system-wide call (C11_scan_never_fails, C11_scan_no_holder, C11_scan_process, C11_scan_process_error), other errnos propagate (proved: C11_scan_fatal_errno_propagates); on a Python that cannot format IPv6 addresses the rows needing an IPv6 text are left out and IPv4/UNIX rows are unaffected (C11_noipv6_rows, C11_noipv6_left_out, C11_noipv6_v4_unix_unaffected); the same for the per-process form (C11_noipv6_rows_process); WHICH rows are returned, exactly (C11_rows_which: one row per holder for UNIX, the FIRST holder in listing order for TCP/UDP — C11_inet_first_holder, a characterisation: the statement allows any holder), and from it the relation between the two forms (C11_system_rows_in_process for every world; C11_process_rows_in_system / C11_sys_proc_consistent when no TCP/UDP socket of the process is held by an earlier-listed one; the unrestricted equality is refuted on a forked listener, C11_sys_proc_shared_inet_counterexample); proved counterexamples for the two pre-fix behaviours (UNIX path with a blank, UNIX socket shared by two processes) and for narrowed `except` clauses (C11_scan_esrch_counterexample, C11_scan_eperm_counterexample). Tied to the code by translator facts (both kind tables, TCP_STATUSES, family/type constants, endianness, tuple-unpack indices, the path expression, the inode-merge statement, the exception classes / errno names of the `except` clauses of get_proc_inodes and get_all_inodes, the shape of the _Ipv6UnsupportedError try/except in decode_address and process_inet) feeding cfg_good, and by a differential run of the real front-end functions over a fake procfs with per-path fault injection into os.readlink/os.listdir, a patched socket.inet_ntop/has_ipv6, and every query made in several call modes (plain, oneshot fresh/warm, as_dict, process_iter object, second call, deprecated alias; system-wide while oneshot blocks are open); the system-wide and the per-process answers of the real code for one kind are also compared with each other (family consist). Round 3 (audit-driven): BOTH endianness branches of decode_address are translator facts (ntopCalls -> cfg_good.v4RevLE/v4RevBE/v6SwapLE/v6SwapBE) and are both executed by the differential run (family addresses_be + an exhaustive sweep with _pslinux.LITTLE_ENDIAN patched to False over files rendered as a big-endian kernel prints them, driver littleEndian := false); the statement lists of every transcribed function (decode_address, get_proc_inodes, get_all_inodes, process_inet, process_unix, retrieve, the readlink wrapper, _check_conn_kind and its call sites incl. the default kind='inet') are facts compared in cfg_shapes_good; psutil's two documented decode_address vectors are theorems about the literal text (C11_docstring_vectors, + big-endian) and the renderer is compared with the running kernel's line for sockets the harness binds itself (and the real code over the real /proc with getsockname()); 'once per socket' is proved for distinguishable sockets only and REFUTED in general (C11_rows_count_twins / C11_rows_count_Full_false: two ownerless unbound UNIX sockets give one row — rows are value tuples collected in a set); the driver's acceptance test and its well-formedness gate are proved to be the specification's (C11_accepts_iff, C11_wf_iff), unknown kind -> ValueError also for the errno-explicit functions (C11_unknown_kind_ValueError_E), IPv6-less Python x failing descriptors (C11_noipv6_scan). CHARACTERISATIONS, not promises derived from the statement (which is silent there): which errnos count as 'cannot be inspected', that one denied readlink hides the whole process (viewProc), that an IPv6 socket with both ports 0 is still reported on an IPv6-less Python (needsV6Text) — C11_scan_*, C11_noipv6_* describe what the code does under a reading fitted to it; likewise C11_rows_which / C11_inet_first_holder.",
+    "level_text": "Machine-checked Lean 4 proofs over a transcription of _pslinux.NetConnections (decode_address, process_inet, process_unix, get_proc_inodes, get_all_inodes, retrieve), wrap_exceptions around Process.net_connections and the front-end kind check: address round-trip for EVERY IPv4/IPv6 address and port on both endiannesses against the kernel's %08X-per-host-order-word rendering (C11_addr_roundtrip_v4/v6, C11_port_zero_empty), the 11-state status map and both kind tables by `decide` over the translator-generated tables (C11_status_map, C11_kind_table, C11_kind_files), unknown kind -> ValueError, exact parsing of every rendered tcp/udp/unix line incl. UNIX names with blanks and carriage returns (C11_inet_line, C11_unix_line, C11_unix_name_with_cr), owner lookup for every descriptor table (C11_owner), the resulting rows/per-process statements (C11_rows_exact, C11_per_process_only_own) and their NUMBER incl. any number of sockets sharing inode 0 (C11_rows_count, C11_rows_count_inode0); with every errno outcome of os.listdir/os.readlink explicit: a descriptor or process that cannot be inspected (ENOENT, ESRCH, EINVAL, ENAMETOOLONG, EACCES, EPERM) contributes no holder and never fails the system-wide call (C11_scan_never_fails, C11_scan_no_holder, C11_scan_process, C11_scan_process_error), other errnos propagate (proved: C11_scan_fatal_errno_propagates); on a Python that cannot format IPv6 addresses the rows needing an IPv6 text are left out and IPv4/UNIX rows are unaffected (C11_noipv6_rows, C11_noipv6_left_out, C11_noipv6_v4_unix_unaffected); the same for the per-process form (C11_noipv6_rows_process); WHICH rows are returned, exactly (C11_rows_which: one row per holder for UNIX, the FIRST holder in listing order for TCP/UDP — C11_inet_first_holder, a characterisation: the statement allows any holder), and from it the relation between the two forms (C11_system_rows_in_process for every world; C11_process_rows_in_system / C11_sys_proc_consistent when no TCP/UDP socket of the process is held by an earlier-listed one; the unrestricted equality is refuted on a forked listener, C11_sys_proc_shared_inet_counterexample); proved counterexamples for the two pre-fix behaviours (UNIX path with a blank, UNIX socket shared by two processes) and for narrowed `except` clauses (C11_scan_esrch_counterexample, C11_scan_eperm_counterexample). Tied to the code by translator facts (both kind tables, TCP_STATUSES, family/type constants, endianness, tuple-unpack indices, the path expression, the inode-merge statement, the exception classes / errno names of the `except` clauses of get_proc_inodes and get_all_inodes, the shape of the _Ipv6UnsupportedError try/except in decode_address and process_inet) feeding cfg_good, and by a differential run of the real front-end functions over a fake procfs with per-path fault injection into os.readlink/os.listdir, a patched socket.inet_ntop/has_ipv6, and every query made in several call modes (plain, oneshot fresh/warm, as_dict, process_iter object, second call, deprecated alias; system-wide while oneshot blocks are open); the system-wide and the per-process answers of the real code for one kind are also compared with each other (family consist). Round 3 (audit-driven): BOTH endianness branches of decode_address are translator facts (ntopCalls -> cfg_good.v4RevLE/v4RevBE/v6SwapLE/v6SwapBE) and are both executed by the differential run (family addresses_be + an exhaustive sweep with _pslinux.LITTLE_ENDIAN patched to False over files rendered as a big-endian kernel prints them, driver littleEndian := false); the statement lists of every transcribed function (decode_address, get_proc_inodes, get_all_inodes, process_inet, process_unix, retrieve, the readlink wrapper, _check_conn_kind and its call sites incl. the default kind='inet') are facts compared in cfg_shapes_good; psutil's two documented decode_address vectors are theorems about the literal text (C11_docstring_vectors, + big-endian) and the renderer is compared with the running kernel's line for sockets the harness binds itself (and the real code over the real /proc with getsockname()); 'once per socket' is proved for distinguishable sockets only and REFUTED in general (C11_rows_count_twins / C11_rows_count_Full_false: two ownerless unbound UNIX sockets give one row — rows are value tuples collected in a set); the driver's acceptance test and its well-formedness gate are proved to be the specification's (C11_accepts_iff, C11_wf_iff), unknown kind -> ValueError also for the errno-explicit functions (C11_unknown_kind_ValueError_E), IPv6-less Python x failing descriptors (C11_noipv6_scan). Seeded round 5: the ONE dict `inodes` that retrieve hands to every process_inet / process_unix call of a query is threaded through every line of every table in the model the driver runs (netConnectionsES), with the access (membership-guarded subscript / bare subscript / get / setdefault) and the kind of dict ({} / defaultdict(list)) as translator facts (cfg_lookup_good); C11_shared_map_frame: for the code as it is no lookup ever changes the dict, on every file system; C11_shared_map / C11_shared_inode_no_holder / C11_all_is_union: the promised rows when tables share inode numbers (inode 0 on TIME_WAIT lines of net/tcp and on not yet accepted connections of net/unix), 'all' = 'inet' | 'unix' exactly; refuted for an inserting lookup (C11_shared_map_counterexample, C11_shared_map_setdefault_counterexample); generator family crossinode + exhaustive class-pair sweep + the real code's 'all' compared with its 'inet' | 'unix'. CHARACTERISATIONS, not promises derived from the statement (which is silent there): which errnos count as 'cannot be inspected', that one denied readlink hides the whole process (viewProc), that an IPv6 socket with both ports 0 is still reported on an IPv6-less Python (needsV6Text) — C11_scan_*, C11_noipv6_* describe what the code does under a reading fitted to it; likewise C11_rows_which / C11_inet_first_holder.",
     "level_note": "Trusted: Lean kernel + {propext, Classical.choice, Quot.sound}; translator; correspondence harness (incl. the fault-injection shims); inet_ntop text formatting (libc); kernel renderers (validated against an independent printf renderer each run); text decoding modelled as identity on bytes; '\\n' inside UNIX names outside the domain; zombie / vanished-process handling of wrap_exceptions (C03) fixed to 'stat present, not a zombie'.",
     "technique": "Lean 4 round-trip proofs (render -> parse) by structural induction + simulation of the errno-explicit model by the error-free core + `decide` over generated tables + translator-fed proof obligations (semantic facts in cfg_good, whole-function statement lists in cfg_shapes_good) + differential correspondence over a fake procfs with fault injection, both endiannesses, call modes (incl. the documented default kind) and an exhaustive kind x (family,type) x mode sweep + live-kernel check of the renderer",
     "design_ref": "DESIGN.md §5 C11",
@@ -423,6 +423,87 @@ def _ntop_calls(fn):
     return out
 
 
+def _dict_init(fn, name="inodes"):
+    """the expression(s) the local `inodes` is first bound to in get_all_inodes / get_proc_inodes, joined with ' ;; '
+    (`{}` / `dict()`: a plain dict; `defaultdict(list)`: subscripting a missing key creates it)"""
+    if isinstance(fn, str):
+        return fn
+    found = [_flat1(n.value) for n in ast.walk(fn)
+             if isinstance(n, ast.Assign) and len(n.targets) == 1 and extract.dotted(n.targets[0]) == name]
+    found += [_flat1(n) for n in ast.walk(fn) if isinstance(n, (ast.AugAssign, ast.AnnAssign)) and extract.dotted(n.target) == name]
+    return " ;; ".join(found) if found else "<no assignment to %s>" % name
+
+
+def _dict_uses(fn, name="inodes"):
+    """HOW process_inet / process_unix get at the shared dict `inodes` (one mutable object for all the tables of a
+    query): the sorted set of
+      'guarded-subscript'  `inodes[k]` evaluated only when `k in inodes` held (if / conditional expression / `and`),
+      'subscript'          `inodes[k]` evaluated unconditionally (a defaultdict inserts the missing key),
+      'get' / 'setdefault' the dict methods (setdefault inserts),
+      '?…'                 any other use (a store, another method, the dict passed on …), described.
+    Membership tests themselves (`k in inodes`) only read and are not listed."""
+    if isinstance(fn, str):
+        return [fn]
+    parent = {}
+    for n in ast.walk(fn):
+        for c in ast.iter_child_nodes(n):
+            parent[c] = n
+
+    def is_member_test(t, key, negated=False):
+        if isinstance(t, ast.UnaryOp) and isinstance(t.op, ast.Not):
+            return is_member_test(t.operand, key, not negated)
+        return isinstance(t, ast.Compare) and len(t.ops) == 1 and len(t.comparators) == 1 \
+            and isinstance(t.ops[0], ast.NotIn if negated else ast.In) \
+            and _flat1(t.comparators[0]) == name and _flat1(t.left) == key
+
+    def guarded(node, key):
+        child, anc = node, parent.get(node)
+        while anc is not None and anc is not fn:
+            if isinstance(anc, ast.If):
+                if child in anc.body and is_member_test(anc.test, key):
+                    return True
+                if child in anc.orelse and is_member_test(anc.test, key, negated=True):
+                    return True
+            elif isinstance(anc, ast.IfExp):
+                if child is anc.body and is_member_test(anc.test, key):
+                    return True
+                if child is anc.orelse and is_member_test(anc.test, key, negated=True):
+                    return True
+            elif isinstance(anc, ast.BoolOp) and isinstance(anc.op, ast.And):
+                i = anc.values.index(child)
+                if any(is_member_test(v, key) for v in anc.values[:i]):
+                    return True
+            elif isinstance(anc, (ast.FunctionDef, ast.Lambda, ast.For, ast.While)):
+                # the test does not dominate a loop body that may rebind the key / a deferred body
+                if isinstance(anc, (ast.FunctionDef, ast.Lambda)):
+                    return False
+            child, anc = anc, parent.get(anc)
+        return False
+    out = set()
+    for n in ast.walk(fn):
+        if not (isinstance(n, ast.Name) and n.id == name):
+            continue
+        par = parent.get(n)
+        if isinstance(par, ast.Compare) and n in par.comparators and len(par.ops) == 1 \
+                and isinstance(par.ops[0], (ast.In, ast.NotIn)):
+            continue
+        if isinstance(par, ast.Subscript) and par.value is n:
+            if not isinstance(par.ctx, ast.Load):
+                out.add("?store " + _flat1(parent.get(par, par)))
+            else:
+                out.add("guarded-subscript" if guarded(par, _flat1(par.slice)) else "subscript")
+            continue
+        if isinstance(par, ast.Attribute) and par.value is n:
+            gp = parent.get(par)
+            if isinstance(gp, ast.Call) and gp.func is par and par.attr in ("get", "setdefault"):
+                out.add(par.attr)
+            else:
+                out.add("?" + _flat1(gp if gp is not None else par))
+            continue
+        out.add("?" + _flat1(par if par is not None else n))
+    return sorted(out) or ["?no use of %s" % name]
+
+
 def facts(snap, F):
     cache = {}
 
@@ -489,6 +570,16 @@ def facts(snap, F):
               "decode_address: handlers of the try around the AF_INET6 inet_ntop calls (b16decode and the IPv4 calls are outside it)")
     F.try_add("inetV6Try", "List String", lambda: LS(_try_shape(NC("process_inet"), "decode_address")),
               "process_inet: the try around the two decode_address calls, statement by statement")
+    F.try_add("allInodesInit", "String", lambda: extract.lean_str(_dict_init(NC("get_all_inodes"))),
+              "get_all_inodes: what `inodes` is created as — `{}` (a missing key stays missing) or `defaultdict(list)` (subscripting a "
+              "missing key creates it). This ONE object is handed to every process_inet / process_unix call of a query")
+    F.try_add("procInodesInit", "String", lambda: extract.lean_str(_dict_init(NC("get_proc_inodes"))),
+              "get_proc_inodes: what `inodes` is created as (the dict of the per-process form)")
+    F.try_add("inetLookup", "List String", lambda: LS(_dict_uses(NC("process_inet"))),
+              "process_inet: how the shared dict `inodes` is accessed — 'guarded-subscript' (only under `inode in inodes`), 'subscript' "
+              "(unconditional: a defaultdict inserts), 'get', 'setdefault' (inserts), '?…' = anything else")
+    F.try_add("unixLookup", "List String", lambda: LS(_dict_uses(NC("process_unix"))),
+              "process_unix: how the shared dict `inodes` is accessed (same vocabulary)")
     F.try_add("ntopCalls", "List (String × String)",
               lambda: L(_ntop_calls(NC("decode_address")), lambda kv: extract.lean_pair(extract.lean_str(kv[0]), extract.lean_str(kv[1]))),
               "decode_address: each inet_ntop call — the `if` tests it sits under (family, LITTLE_ENDIAN) and its second argument; "
@@ -1017,6 +1108,34 @@ def gen_world(rng, family):
             if t["typ"] == 1:
                 t["state"] = rng.choice([6, 6, 6, 3, 4, 5, 9, 11])
             socks.insert(rng.randrange(len(socks) + 1), t)
+    if family == "crossinode":
+        # ONE inode number printed in several tables (retrieve hands one dict to every process_inet / process_unix call
+        # of a query, so what an earlier table looked up must not matter to a later one). The kernel does this with
+        # inode 0 — every socket without a struct socket: TIME_WAIT / SYN_RECV / orphans in net/tcp{,6}, connections not
+        # yet accept()ed in net/unix (printed with the listener's name) — and nothing in the statement excludes a
+        # non-zero number showing up twice (sockfs inode numbers wrap; a socket closed and its number reused between
+        # the reading of two tables). Dimensions: which classes share (inet+unix, inet+inet, unix+unix, 2..5 sockets),
+        # 0 / non-zero, held by 0..n descriptors, position in the table.
+        for _ in range(rng.choice([1, 1, 2, 3])):
+            ino = 0 if rng.random() < 0.5 else rng.choice([1, 7, rng.randrange(1, 99999), rng.randrange(1, 2**32)])
+            r = rng.random()
+            inet = [c for c in classes if c[0] != "unix"] or classes
+            unix = [c for c in classes if c[0] == "unix"] or classes
+            if r < 0.6:
+                group = [rng.choice(inet), rng.choice(unix)] + [rng.choice(classes) for _ in range(rng.choice([0, 0, 1, 3]))]
+            elif r < 0.8:
+                group = [rng.choice(inet) for _ in range(rng.choice([2, 3]))]
+            else:
+                group = [rng.choice(unix) for _ in range(rng.choice([2, 3]))]
+            rng.shuffle(group)
+            listeners = [s for s in socks if s["fam"] == "unix" and s["path"] is not None]
+            for c in group:
+                t = gen_sock(rng, c, ino)
+                if c[0] == "unix" and ino == 0 and listeners and rng.random() < 0.6:
+                    t["path"], t["typ"], t["state"] = rng.choice(listeners)["path"], 1, 3     # queued on that listener
+                if c[0] != "unix" and c[1] == 1 and ino == 0:
+                    t["state"] = rng.choice([6, 6, 3, 4, 5, 9, 11])
+                socks.insert(rng.randrange(len(socks) + 1), t)
     if family == "twins" and socks:
         # indistinguishable sockets (same class/addresses, different inode): rows collapse only when owner-less
         for _ in range(rng.randrange(1, 3)):
@@ -1036,6 +1155,8 @@ def gen_world(rng, family):
             k = rng.choice([0, 0, 1, 1, 1, 2, 2, 3]) if family not in ("shared", "consist") else rng.choice([1, 2, 3, 4])
             if s["inode"] == 0:
                 k = 0                                               # nobody can hold `socket:[0]`
+            elif family == "crossinode" and any(fd.get("s") == s["inode"] for p in pids for fd in fds[p].values() if fd):
+                k = 0                                               # the shared number got its holders with the first socket
             for _ in range(k):
                 p = rng.choice(pids)
                 fds[p][new_fd(p)] = {"s": s["inode"]}
@@ -1107,9 +1228,14 @@ def gen_queries(rng, world, n=3, family=None):
             q["modes"] = [rng.choice(modes_for(q))]
         return qs
     qs = [{"kind": "all", "pid": None}]
+    if family == "crossinode":
+        # 'all' walks every table over the one dict; 'inet' and 'unix' for the union check (C11_all_is_union); the
+        # remaining queries are drawn as usual
+        qs += [{"kind": "inet", "pid": None}, {"kind": "unix", "pid": None}]
+        n = max(n, 5)
     faulty = family in ("faults", "fatal", "listerr")
     anyproc = [p for p, f in world["procs"] if f is not None] if faulty else listable
-    for _ in range(n - 1):
+    for _ in range(n - len(qs)):
         r = rng.random()
         kind = rng.choice(KINDS) if r < 0.93 else rng.choice(BOGUS)
         if rng.random() < 0.25:
@@ -1162,6 +1288,63 @@ def exhaustive_world():
         add(("inet6", 1), [], state=st)
     return {"socks": socks, "v6": True,
             "procs": [[p, [[fd, t] for fd, t in sorted(f.items())]] for p, f in sorted(procs.items())]}
+
+
+def _plain_sock(cls, inode, n, **kw):
+    s = {"fam": cls[0], "typ": cls[1], "lip": "", "lport": 0, "rip": "", "rport": 0, "state": 1, "path": None,
+         "inode": inode, "txq": 0, "rxq": 0, "uid": 1000, "refcnt": 2, "flags": 0}
+    if cls[0] == "inet4":
+        s.update(lip="7f000001", lport=3000 + n, rip="0a000005", rport=50000 + n)
+    if cls[0] == "inet6":
+        s.update(lip="00000000000000000000ffff7f000001", lport=3000 + n, rip="fe800000000000000000000000000001", rport=443)
+    if cls[0] == "unix":
+        s.update(path=("/run/c%d.sock" % n).encode().hex())
+    if cls[0] != "unix":
+        s["state"] = 6 if cls[1] == 1 else 7
+    s.update(kw)
+    return s
+
+
+HOLDER_SITUATIONS = {"none": [], "one": [(10, 3)], "two-procs": [(10, 3), (20, 4)], "one-proc-twice": [(20, 5), (20, 6)]}
+
+
+def crosstable_worlds():
+    """Structured part of the cross-table family: ONE inode number on a socket of EVERY class (tcp4, udp4, tcp6, udp6,
+    unix stream / dgram / seqpacket) — 0 (nobody can hold it) and a non-zero number in each holder situation — next to
+    an ordinary held socket of every class. -> [(label, world)]"""
+    out = []
+    for ino, sits in ((0, ["none"]), (4242, list(HOLDER_SITUATIONS))):
+        for sit in sits:
+            socks = [_plain_sock(c, ino, i) for i, c in enumerate(CLASSES)]
+            procs = {10: {}, 20: {}, 30: {}}
+            for pid, fd in HOLDER_SITUATIONS[sit]:
+                procs[pid][fd] = {"s": ino}
+            for i, c in enumerate(CLASSES):
+                socks.append(_plain_sock(c, 9000 + i, 100 + i))
+                procs[30][10 + i] = {"s": 9000 + i}
+            out.append(("inode %d on every class, holders: %s" % (ino, sit),
+                        {"socks": socks, "v6": True,
+                         "procs": [[p, [[fd, t] for fd, t in sorted(f.items())]] for p, f in sorted(procs.items())]}))
+    return out
+
+
+def crosstable_pairs():
+    """Small exhaustive part: every ORDERED pair of classes (7 x 7, the order is the order of the lines when both are of
+    one table) sharing one inode number, for inode 0 / a non-zero number held by nobody / by one descriptor / by two
+    processes. -> [(label, world)]"""
+    out = []
+    for a in CLASSES:
+        for b in CLASSES:
+            for ino, sit in ((0, "none"), (777, "none"), (777, "one"), (777, "two-procs")):
+                procs = {10: {}, 20: {}}
+                for pid, fd in HOLDER_SITUATIONS[sit]:
+                    procs[pid][fd] = {"s": ino}
+                procs[10][9] = {"s": 555}
+                socks = [_plain_sock(a, ino, 1), _plain_sock(b, ino, 2), _plain_sock(("unix", 2), 555, 3)]
+                out.append(("%s/%d + %s/%d share inode %d (%s)" % (a[0], a[1], b[0], b[1], ino, sit),
+                            {"socks": socks, "v6": True,
+                             "procs": [[p, [[fd, t] for fd, t in sorted(f.items())]] for p, f in sorted(procs.items())]}))
+    return out
 
 
 def faults_world():
@@ -1321,6 +1504,19 @@ def features(world, listed):
                     f.add("addr4:" + ("zero" if set(ip) == {"0"} else "other"))
     if not world["v6"]:
         f.add("no-ipv6")
+    by_ino = {}
+    for s in world["socks"]:
+        by_ino.setdefault(s["inode"], []).append(s)
+    for ino, ss in by_ino.items():
+        if ino == 0 and any(s["fam"] == "unix" for s in ss):
+            f.add("inode0:unix socket (connection not yet accepted)")
+        if len(ss) < 2:
+            continue
+        tables = {"unix" if s["fam"] == "unix" else "%s%s" % ("tcp" if s["typ"] == 1 else "udp", "6" if s["fam"] == "inet6" else "")
+                  for s in ss}
+        fams = {"unix" if s["fam"] == "unix" else "inet" for s in ss}
+        f.add("inode-shared:%s, %s, %s" % ("+".join(sorted(fams)), "one table" if len(tables) == 1 else "several tables",
+                                           "inode 0" if ino == 0 else "held" if holders.get(ino) else "non-zero, no holder"))
     return f
 
 
@@ -1411,6 +1607,29 @@ def run_worlds(ctx, impl, items, res, tag_prefix=""):
                 res.count("nov6:per-process query against the promise for dropV6 (C11_noipv6_rows_process)")
         if tag in ("consist", "corpus"):
             check_consistency(world, listed, queries, outs, res, tag)
+        if tag in ("crossinode", "corpus", "exhaustive_crosstable", "exhaustive_crosstable_pairs"):
+            check_union(world, listed, queries, outs, res, tag)
+
+
+def check_union(world, listed, queries, outs, res, tag):
+    """'all' = the sum of all families and protocols: the system-wide answers of the REAL code for kind 'all', 'inet' and
+    'unix' over one tree must satisfy rows(all) = rows(inet) | rows(unix) (theorem C11_all_is_union: the tables read
+    first take nothing away from — and add nothing to — the later ones)."""
+    got = {}
+    for q, ims in zip(queries, outs):
+        if q["pid"] is None and q["kind"] in ("all", "inet", "unix") and q["kind"] not in got:
+            got[q["kind"]] = ims[0]
+    if len(got) < 3 or any(im.get("kind") != "rows" for _, im in got.values()):
+        return
+    res.count("union:rows('all') compared with rows('inet') | rows('unix') of the real code")
+    ka = {_rowkey(r) for r in got["all"][1]["rows"]}
+    ku = {_rowkey(r) for r in got["inet"][1]["rows"]} | {_rowkey(r) for r in got["unix"][1]["rows"]}
+    if ka != ku:
+        mode, im = got["all"]
+        inp = {"world": dict(world, procs=listed), "query": {"kind": "all", "pid": None, "modes": [mode]}, "source": tag}
+        res.disagree("model", inp, im, {"kind": "rows", "rows": got["inet"][1]["rows"] + got["unix"][1]["rows"]}, None,
+                     note="net_connections('all') is not net_connections('inet') | net_connections('unix') (C11_all_is_union): "
+                          "missing %s, extra %s" % (sorted(ku - ka)[:2], sorted(ka - ku)[:2]))
 
 
 def check_consistency(world, listed, queries, outs, res, tag):
@@ -1494,7 +1713,7 @@ def run_raw(ctx, impl, items, res):
 
 
 FAMILIES = ["mixed", "unix_paths", "addresses", "shared", "twins", "ownerless", "faults", "big",
-            "mixed", "nov6", "listerr", "fatal", "consist", "addresses_be"]
+            "mixed", "nov6", "listerr", "fatal", "consist", "addresses_be", "crossinode"]
 
 CORPUS = [
     # L11: UNIX socket bound to a path containing a blank
@@ -1528,6 +1747,15 @@ CORPUS = [
     {"socks": [{"fam": "unix", "typ": 1, "lip": "", "lport": 0, "rip": "", "rport": 0, "state": 1,
                 "path": None, "inode": 501 + i, "txq": 0, "rxq": 0, "uid": 0, "refcnt": 2, "flags": 0} for i in range(2)],
      "procs": [[10, []]], "v6": True},
+    # worldPending (C11_pending_unix_reported, C11_shared_map_counterexample; seeded C11-4): a TIME_WAIT TCP socket and a
+    # UNIX connection still queued on the listener /run/srv.sock — the kernel prints both with inode 0, nobody holds them
+    {"socks": [{"fam": "inet4", "typ": 1, "lip": "7f000001", "lport": 8080, "rip": "7f000001", "rport": 40000, "state": 6,
+                "path": None, "inode": 0, "txq": 0, "rxq": 0, "uid": 0, "refcnt": 2, "flags": 0},
+               {"fam": "unix", "typ": 1, "lip": "", "lport": 0, "rip": "", "rport": 0, "state": 3,
+                "path": b"/run/srv.sock".hex(), "inode": 0, "txq": 0, "rxq": 0, "uid": 0, "refcnt": 2, "flags": 0},
+               {"fam": "unix", "typ": 1, "lip": "", "lport": 0, "rip": "", "rport": 0, "state": 1,
+                "path": b"/run/srv.sock".hex(), "inode": 7001, "txq": 0, "rxq": 0, "uid": 0, "refcnt": 2, "flags": 65536}],
+     "procs": [[100, [[4, {"s": 7001}]]]], "v6": True},
 ]
 
 
@@ -1535,7 +1763,7 @@ def correspond(ctx, res):
     impl = Impl(ctx)
     rng = ctx.rng
     try:
-        res.rule = ("(world, query, call mode) triples: worlds = random socket tables + descriptor tables from 12 clause-directed "
+        res.rule = ("(world, query, call mode) triples: worlds = random socket tables + descriptor tables from 13 clause-directed "
                     "families (PRNG from VERIF_SEED; incl. failing readlink/listdir by errno class and a Python without IPv6 "
                     "text support), corpus witnesses in every call mode, exhaustive kind x caller x mode sweeps, and a "
                     "malformed-file stream; non-trivial = the specification promises at least one row or an exception; "
@@ -1546,6 +1774,7 @@ def correspond(ctx, res):
             cq = [{"kind": "all", "pid": None}, {"kind": "unix", "pid": p0}, {"kind": "all", "pid": p0},
                   {"kind": "inet", "pid": None}, {"kind": "inet", "pid": p0}]
             cq += [{"kind": k, "pid": p} for k in ("all", "inet") for p, _ in w["procs"][1:]]
+            cq.append({"kind": "unix", "pid": None})
             for q in cq:
                 q["modes"] = modes_for(q)              # the witnesses are replayed in every call mode
             items.append(("corpus", w, cq))
@@ -1581,6 +1810,18 @@ def correspond(ctx, res):
         # the 11 kinds x 4 callers on a big-endian host (the `else:` branches of decode_address)
         bw = dict(exhaustive_world(), be=True)
         items.append(("exhaustive_be", bw, [{"kind": k, "pid": p, "modes": ["plain"]} for k in KINDS for p in (None, 10, 20, 30)]))
+        # one inode number in several tables (the dict `inodes` is shared by all the tables of a query): the number on a
+        # socket of every class x holder situation, 11 kinds x every caller x every call mode; then every ordered pair of
+        # classes x 4 situations, 11 kinds system-wide + `all` of each process
+        for label, cw in crosstable_worlds():
+            cq = [{"kind": k, "pid": p} for k in KINDS for p in (None, 10, 20, 30)]
+            for q in cq:
+                q["modes"] = modes_for(q)
+            items.append(("exhaustive_crosstable", cw, cq))
+        for label, cw in crosstable_pairs():
+            cq = [{"kind": k, "pid": None, "modes": ["plain"]} for k in KINDS]
+            cq += [{"kind": "all", "pid": p, "modes": ["plain"]} for p in (10, 20)]
+            items.append(("exhaustive_crosstable_pairs", cw, cq))
         CH = 400
         for a in range(0, len(items), CH):
             run_worlds(ctx, impl, items[a:a + CH], res)
@@ -1589,7 +1830,10 @@ def correspond(ctx, res):
                           "and all 11 TCP states for tcp4/tcp6, each of the 11 kinds in EVERY call mode (3 system-wide, 6-7 per "
                           "process); the same 11 kinds x every call mode over a table whose descriptors fail with each errno "
                           "class and whose processes show each listdir outcome; the 11 kinds x 4 callers with inet_ntop "
-                          "refusing AF_INET6 (supports_ipv6() false / true); the random worlds are samples" % len(others))
+                          "refusing AF_INET6 (supports_ipv6() false / true); one inode number on a socket of every class "
+                          "(inode 0, and a non-zero number in 4 holder situations) x 11 kinds x 4 callers x every call mode, and "
+                          "every ordered pair of the 7 classes sharing inode 0 / a non-zero number held by nobody / one descriptor "
+                          "/ two processes x 11 kinds system-wide + kind all of each process; the random worlds are samples" % len(others))
         # non-string kinds: the statement only needs ValueError
         bad_objs = 0
         for k in (None, 0, 1.5, b"tcp", ("tcp",), ["tcp"], {"tcp"}, object()):
